@@ -26,10 +26,13 @@ LAYOUTS = {
     "truncated": [("fix", I8), ("cand", b"POWR"), ("cand", b"INFO"), ("fix", b"\x00\x10")],
     "three": [("fix", I8), ("cand", b"POWR"), ("fix", bytes(range(9))), ("hdr", b"IICM"), ("fix", bytes(range(5))), ("cand", b"ERRL")],
     "tiny": [("symlen", 7)],
+    # both occurrences of the name are certainly headers; one content byte of the first buffer is symbolic
+    "twice-fixed": [("fix", I8), ("hdr", b"FANS"), ("fix", bytes(range(5))), ("sym1", None), ("fix", bytes(range(4))), ("hdr", b"FANS"),
+                    ("fix", bytes(range(10))), ("hdr", b"INFO"), ("fix", bytes(range(6)))],
     "odd": [("fix", I8 + b"\x00\x07\x01"), ("cand", b"FANS"), ("fix", bytes(range(13))), ("hdr", b"INFO"), ("fix", bytes(range(3)))],
 }
 HARNESSES = [
-    {"fn": "h_partition", "cases": sorted(LAYOUTS), "quick_cases": ["at0", "two", "adjacent", "truncated", "none", "three", "tiny", "odd", "twice"],
+    {"fn": "h_partition", "cases": sorted(LAYOUTS), "quick_cases": ["at0", "two", "adjacent", "truncated", "none", "three", "tiny", "odd", "twice", "twice-fixed"],
      "timeout": {"quick": 150, "thorough": 600}},
     {"fn": "h_file", "cases": ["f%d:L%d:u%d:c%d" % (f, L, u, c) for f in (0, 1) for L in (23, 37, 40, 180) for u in (0, 1) for c in (0, 1)] + ["empty", "f0:L40:u1:c0:pre", "f1:L37:u0:c1:pre", "f0:L5:u0:c1", "f1:L3:u1:c0", "f0:L37:u1:c1:nonl", "f1:L23:u0:c1:nonl", "f1:L32:u1:c0:nonl"],
      "quick_cases": ["f0:L40:u1:c0:pre", "f1:L37:u0:c1:pre", "f1:L3:u1:c0", "f0:L37:u1:c1:nonl", "f1:L23:u0:c1:nonl", "f0:L40:u1:c0", "f1:L37:u0:c1", "f0:L180:u1:c1", "f1:L23:u1:c0", "empty"],
@@ -51,6 +54,8 @@ def build(layout):
     for kind, val in LAYOUTS[layout]:
         if kind == "fix":
             parts.append(val)
+        elif kind == "sym1":
+            parts.append(sym_bytes("c", 1))
         elif kind == "symlen":          # 1..val symbolic bytes (shorter than one ILOG entry)
             n = sym_int("n", 1, val)
             for cand in range(1, val + 1):
